@@ -336,6 +336,18 @@ class Program:
                         part = part.strip()
                         if not part:
                             continue
+                        if part.startswith("#("):
+                            # seq_macro repetition `#( Name~N = N << k, )*` inside `seq!(N in a..=b { ... })`
+                            sm = None
+                            for sm in re.finditer(r"seq!\(\s*(\w+)\s+in\s+(\d+)\s*\.\.(=?)\s*(\d+)\s*\{", s[:m.start()]):
+                                pass
+                            rm = re.search(r"([A-Za-z_][A-Za-z0-9_]*)~(\w+)\s*=\s*(\w+)\s*(?:<<\s*(\d+))?", part)
+                            if sm and rm and rm.group(2) == sm.group(1) == rm.group(3):
+                                hi = int(sm.group(4)) + (1 if sm.group(3) else 0)
+                                for nval in range(int(sm.group(2)), hi):
+                                    vs.append(rm.group(1) + str(nval))
+                                    explicit[rm.group(1) + str(nval)] = nval << int(rm.group(4) or 0)
+                            continue
                         mm = re.match(r"([A-Za-z_][A-Za-z0-9_]*)\s*(?:=\s*(-?\d+))?", part)
                         if mm:
                             vs.append(mm.group(1))
@@ -908,6 +920,8 @@ class Exec:
                 return EnumV(vi, (), ename)
         if want_ty and int_type(want_ty) is None:
             return OpaqueV("const." + sanitize(c), want_ty or "")
+        if c in ("RangeFull", "std::ops::RangeFull", "core::ops::RangeFull"):
+            return AggV((), "RangeFull")
         if re.fullmatch(r"[A-Za-z_][A-Za-z0-9_:]*", c) and getattr(self.ctx, "uninterpreted_unknown_calls", False):
             return OpaqueV("const." + sanitize(c), c)     # unit struct constant such as `RangeFull`
         raise Unsupported(f"constant `{c}`")
